@@ -123,6 +123,11 @@ func runC10(c *Ctx) {
 			add("targeted", []byte(t))
 		}
 	})
+	if c.Quick() {
+		parserModelCases(c, items, 6000)
+	} else {
+		parserModelCases(c, items, 60000)
+	}
 	type rend struct{ unsafe, xhtml, hw bool }
 	lawSweepAll(c, cfgs, items, "option-orthogonality", func(d []byte) bool { return true }, func(m mdT, all []mdT, d []byte) (string, bool) {
 		if m.cf.Unsafe || m.cf.XHTML || m.cf.HardWraps {
